@@ -72,6 +72,9 @@ def func_span(source: str, qual: str) -> tuple[int, int]:
 def apply_edits(sources: dict[str, str], edits: list[tuple]) -> dict[str, str]:
     out = dict(sources)
     for e in edits:
+        if e[0] == '__patch__':
+            out = apply_unified_diff(out, e[1])
+            continue
         path, qual, old, new = e[0], e[1], e[2], e[3]
         count = e[4] if len(e) > 4 else 1
         if path not in out:
@@ -94,10 +97,103 @@ def apply_edits(sources: dict[str, str], edits: list[tuple]) -> dict[str, str]:
     return out
 
 
+def apply_unified_diff(sources: dict[str, str], patch: str) -> dict[str, str]:
+    """Apply a `git diff` style patch to the in-memory sources (exact match of the hunk's old lines, searched
+    near the stated position).  Raises EditError when a hunk does not apply."""
+    import re
+    out = dict(sources)
+    cur = None
+    hunks: dict[str, list] = {}
+    lines = patch.splitlines()
+    i = 0
+    while i < len(lines):
+        ln = lines[i]
+        if ln.startswith('+++ '):
+            path = ln[4:].strip()
+            cur = path[2:] if path.startswith('b/') else path
+            hunks.setdefault(cur, [])
+        elif ln.startswith('@@') and cur is not None:
+            m = re.match(r'@@ -(\d+)(?:,(\d+))? \+(\d+)(?:,(\d+))? @@', ln)
+            start = int(m.group(1))
+            old, newl = [], []
+            i += 1
+            while i < len(lines) and not lines[i].startswith(('@@', 'diff --git', '--- ', '+++ ')):
+                h = lines[i]
+                if h.startswith('+'):
+                    newl.append(h[1:])
+                elif h.startswith('-'):
+                    old.append(h[1:])
+                elif h.startswith('\\'):
+                    pass
+                else:
+                    old.append(h[1:] if h.startswith(' ') else h)
+                    newl.append(h[1:] if h.startswith(' ') else h)
+                i += 1
+            hunks[cur].append((start, old, newl))
+            continue
+        i += 1
+    for path, hs in hunks.items():
+        if path not in out:
+            if path.startswith('labtech/'):
+                raise EditError(f'{path} not in sources')
+            continue
+        text = out[path].split('\n')
+        delta = 0
+        for (start, old, newl) in hs:
+            pos = None
+            guess = start - 1 + delta
+            for off in sorted(range(-40, 41), key=abs):
+                p0 = guess + off
+                if 0 <= p0 <= len(text) - len(old) and text[p0:p0 + len(old)] == old:
+                    pos = p0
+                    break
+            if pos is None:
+                raise EditError(f'{path}: hunk at line {start} does not apply')
+            text[pos:pos + len(old)] = newl
+            delta += len(newl) - len(old)
+        out[path] = '\n'.join(text)
+        try:
+            ast.parse(out[path])
+        except SyntaxError as ex:
+            raise EditError(f'{path}: patched file does not compile: {ex}')
+    return out
+
+
 def load_variants() -> None:
     if VARIANTS:
         return
     from . import variants  # noqa: F401  (registers)
+    _load_corpus_dirs()
+
+
+def _load_corpus_dirs() -> None:
+    """The independent sub-agents' changes are part of the corpus: seeded/<id>/patch.diff must be reported by the
+    check of its property (by one of the rules recorded in meta.json), refactors/<id>/patch.diff must stay silent."""
+    import glob
+    import json
+    root = os.path.dirname(os.path.dirname(os.path.abspath(__file__)))
+    for m in sorted(glob.glob(os.path.join(root, 'seeded', '*', 'meta.json'))):
+        d = os.path.dirname(m)
+        try:
+            j = json.load(open(m))
+            patch = open(os.path.join(d, 'patch.diff')).read()
+        except (OSError, ValueError):
+            continue
+        rules = j.get('check_result', {}).get('rules_reporting') or []
+        VARIANTS.append(Variant('seeded-' + os.path.basename(d), [j['property']], 'fire', [('__patch__', patch)], rules,
+                                note=(j.get('summary') or '')[:120]))
+    for m in sorted(glob.glob(os.path.join(root, 'refactors', '*', 'meta.json'))):
+        d = os.path.dirname(m)
+        try:
+            j = json.load(open(m))
+            patch = open(os.path.join(d, 'patch.diff')).read()
+        except (OSError, ValueError):
+            continue
+        prop = j.get('property', '')
+        if not prop.startswith('C'):
+            continue
+        VARIANTS.append(Variant('refactor-' + os.path.basename(d), [prop[:3]], 'silent', [('__patch__', patch)], [],
+                                note=(j.get('summary') or '')[:120]))
 
 
 def _verdicts(obs: list[Ob]) -> tuple[set[str], set[str]]:
